@@ -6,7 +6,7 @@ import numpy as np
 
 from common import R, Ro, fl
 
-LEAN_MODULES = ["PyomaVerif.Props.C20", "PyomaVerif.Mutants.C20"]
+LEAN_MODULES = ["PyomaVerif.Props.C20", "PyomaVerif.Props.C20Extract", "PyomaVerif.Mutants.C20"]
 THEOREMS = [
     "PV.C20.flattenF_index",
     "PV.C20.flattenF_length",
@@ -17,7 +17,12 @@ THEOREMS = [
     "PV.C20.C20_stab_bars_shown",
     "PV.C20.C20_stab_bars_none",
     "PV.C20.C20_stab_count",
+    # ordinate = order accepted by extraction, over C11's models ssiMpe / plscfMpe (Props/C20Extract.lean)
+    "PV.C20.marker_cell",
+    "PV.C20.cell_marker",
+    "PV.C20.C20_stab_order_mpe_step",
     "PV.C20.C20_stab_order_mpe_partial",
+    "PV.C20.C20_stab_stable_order_mpe",
     "PV.C20.C20_stab_order_step_counterexample",
     "PV.C20.C20_cluster_label",
     "PV.C20.C20_cluster",
@@ -43,7 +48,9 @@ RULE = (
     "with exact zeros and any amplitude unit) drawn by the real stab_plot / cluster_plot / CMIF_plot and by plot_stab / plot_cluster / plot_CMIF of all "
     "SSI, pLSCF and FDD classes (results injected, plus real runs on simulated records) on Agg axes; Line2D / PathCollection "
     "/ error-bar cap data read back, NaN-filtered and compared as multisets with the Lean model's lists: markers exactly "
-    "(copied floats), error-bar ends and dB curves at 1e-12/1e-11 (one float product / division / log10). oracle: from the "
+    "(copied floats), error-bar ends and dB curves at 1e-12/1e-11 (one float product / division / log10); for sampled stable "
+    "markers (x, y) of the model the real SSI_mpe / pLSCF_mpe([x], order = y // step) against C11's models ssiMpe / plscfMpe "
+    "(all outputs), the functions the order theorems are stated about. oracle: from the "
     "statement, expected markers by a cell loop, order checked by calling the real SSI_mpe / pLSCF_mpe / class mpe with the "
     "marker's ordinate; monitors: nothing drawn on any other axes, returned axes are the ones handed in, caller arrays "
     "unmodified, every object plotted twice and older objects again after newer ones. distinct = distinct (function, rows, cols, step, hide, cov, limits) configurations"
@@ -469,6 +476,37 @@ def corr_stab_case(ctx, fname, call, T, step, hide, cov, lim):
         ok = rd["xlim"] == (lim[0], lim[1])
         why = "xlim"
     ctx.corr(fname, ok, _inp(T, step=step, hide=hide, cov=cov, freqlim=lim), why, why, key)
+    return st
+
+
+def corr_mpe_at_markers(ctx, T, step, st, budget=2):
+    """extraction side of 'ordinate = order accepted by extraction': for some stable markers (x, y) of the model,
+    the real SSI_mpe / pLSCF_mpe([x], Fn, Xi, Phi, order = y // step) against C11's models ssiMpe / plscfMpe (ops
+    ssi_mpe / plscf_mpe) - the functions C20_stab_order_mpe_step / _partial are stated about; all outputs."""
+    from c11 import call_plscf, call_ssi, model_inp, same_out
+
+    pts = [(x, y) for (x, y) in (st or []) if not math.isnan(x)]
+    if not pts or "Phi" not in T or T["Fn"].size > 600:
+        return
+    ctx.rng.shuffle(pts)
+    g = ctx.nprng()
+    shp = T["Fn"].shape
+    for (x, y) in pts[:budget]:
+        cov = None
+        if ctx.rng.random() < 0.5:
+            cov = {"fn": np.where(np.isnan(T["Fn"]), np.nan, g.integers(1, 99, shp) / 8192),
+                   "xi": np.where(np.isnan(T["Fn"]), np.nan, g.integers(1, 99, shp) / 8192),
+                   "phi": np.where(np.isnan(T["Phi"].real), np.nan, g.integers(1, 99, T["Phi"].shape) / 8192)}
+        case = {"freq": [float(x)], "Fn": T["Fn"], "Xi": T["Xi"], "Phi": T["Phi"], "Lab": None, "order": int(y) // int(step),
+                "rtol": ctx.rng.choice([1e-2, 1e-3, 1e-12, 0.0]), "deltaf": 0.05, "cov": cov, "kind": "int"}
+        for which, call, op in (("ssi", call_ssi, "ssi_mpe"), ("plscf", call_plscf, "plscf_mpe")):
+            impl = call(case)
+            inp = model_inp(case, which)
+            model = ctx.model(op, **inp)
+            ok = same_out(model, impl) and "exc" not in impl
+            ctx.corr(f"mpe_at_marker[{'SSI_mpe' if which == 'ssi' else 'pLSCF_mpe'}]", ok, inp if not ok else None, model, impl,
+                     (shp, step, cov is not None))
+        ctx.count("mpe_at_marker")
 
 
 def corr_cluster_case(ctx, fname, call, T, hide, lim):
@@ -527,11 +565,12 @@ def correspondence(ctx):
         axmode = rng.choice([None, None] + AXMODES)
         ordmax = T["Fn"].shape[1] * step
         ordmin = rng.choice([0, 0, rng.randint(0, ordmax)])  # only the y-limits may depend on it
-        corr_stab_case(
+        st = corr_stab_case(
             ctx, "stab_plot",
             lambda: _call(plot.stab_plot, T["Fn"], T["Lab"], step, ordmax, ordmin=ordmin, freqlim=lim, hide_poles=hide, Fn_cov=cov, axmode=axmode),
             T, step, hide, cov, lim,
         )
+        corr_mpe_at_markers(ctx, T, step, st)
         ctx.count(f"ax_{axmode}")
         ctx.count(f"tables_{T['kind']}")
         ctx.count("hide" if hide else "show")
